@@ -6,6 +6,7 @@ package c01semap
 import (
 	"context"
 	"fmt"
+	"math"
 	"runtime"
 	"sync"
 	"sync/atomic"
@@ -89,7 +90,7 @@ func genConfig(t *rapid.T) Config {
 	c := Config{
 		Variant: rapid.SampledFrom([]string{"single", "single", "wide", "xwide"}).Draw(t, "variant"),
 		Shards:  rapid.SampledFrom([]uint64{1, 2, 3, 7, 73}).Draw(t, "shards"),
-		RW:      rapid.SampledFrom([]int{1, 2, 3, 3, 5, 10, 2, 3, 127, 128, 256, 65537}).Draw(t, "rw"),
+		RW:      rapid.SampledFrom([]int{1, 2, 3, 3, 5, 10, 2, 3, 127, 128, 256, 65537, math.MaxInt32, math.MaxInt/2 + 1, math.MaxInt - 3, math.MaxInt}).Draw(t, "rw"),
 	}
 	if rapid.IntRange(0, 11).Draw(t, "defaults") == 0 {
 		c.Defaults, c.RW, c.Shards = true, semap.DefaultRWRatio, 73
@@ -942,7 +943,7 @@ func ExecTie(c CaseTie) *vkit.Result {
 
 var PartCtl = &vkit.Part[CaseCtl]{
 	Property: Property, Name: "controlled",
-	Rule:  "rapid: {variant single|wide-modulo|wide-xxhash, shards 1/2/3/7/73, rwRatio 1/2/3/5/10/127/128/256/65537 or the option-less defaults, 1-3 keys incl. same-shard and same-value-different-type pairs} + 4-30 steps drawn by folding the reference model (acquire R/W incl. pre-cancelled contexts, release by a current holder, cancel of head / mid-queue waiters, holders, finished actors); every acquire on its own goroutine, quiescence (stop-the-world goroutine-state cut) after every step, observed {acquired, failed, parked} per actor compared with the weighted-FIFO model, an independent per-key holder count checks exclusion, idle keys must have no entry, final drain must leave 0 entries. Non-trivial: at least one acquire had to wait; distinct = distinct case JSON",
+	Rule:  "rapid: {variant single|wide-modulo|wide-xxhash, shards 1/2/3/7/73, rwRatio 1/2/3/5/10/127/128/256/65537/MaxInt32/MaxInt/2+1/MaxInt-3/MaxInt or the option-less defaults, 1-3 keys incl. same-shard and same-value-different-type pairs} + 4-30 steps drawn by folding the reference model (acquire R/W incl. pre-cancelled contexts, release by a current holder, cancel of head / mid-queue waiters, holders, finished actors); every acquire on its own goroutine, quiescence (stop-the-world goroutine-state cut) after every step, observed {acquired, failed, parked} per actor compared with the weighted-FIFO model, an independent per-key holder count checks exclusion, idle keys must have no entry, final drain must leave 0 entries. Non-trivial: at least one acquire had to wait; distinct = distinct case JSON",
 	Quick: 3000, Thorough: 20000,
 	Gen: GenCtl, Exec: ExecCtl,
 }
